@@ -19,6 +19,7 @@ type PropUnit struct {
 	Unit string   `json:"unit"`
 	Sel  []string `json:"sel"` // "all", "shared", "tag", "safety", or explicit kinds
 	Lock bool     `json:"lock,omitempty"`
+	Seq  bool     `json:"seq,omitempty"`
 }
 
 type PropCfg struct {
@@ -175,7 +176,7 @@ func cmdCheck(args []string) {
 	var units []*Unit
 	puOf := map[*Unit]PropUnit{}
 	for _, ur := range urefs {
-		u := verifyUnit(env, ur.key, env.funcs[ur.key], UnitOpts{LockMode: ur.pu.Lock})
+		u := verifyUnit(env, ur.key, env.funcs[ur.key], UnitOpts{LockMode: ur.pu.Lock, Sequential: ur.pu.Seq})
 		units = append(units, u)
 		puOf[u] = ur.pu
 	}
